@@ -26,62 +26,19 @@ const (
 	keyCostsCell = "fld[keyCosts](p[0])"
 )
 
-func runC03(c *Ctx) {
+// accountingInvRule: each writer of sampledLFU.used/keyCosts preserves used == sum(keyCosts)
+// on every path (linear effect summaries). Shared by C03, C06, C13 and C17.
+func accountingInvRule(c *Ctx, ruleID string) {
 	L, P := c.L, c.P
-	L.Rule("R-C03-WRITERS", "sampledLFU.used and sampledLFU.keyCosts are written only by add, del, updateIfHas, clear (+ constructor)", 1)
-	L.Rule("R-C03-INV", "each writer preserves used == sum(keyCosts) on every path (linear effect summary)", 4)
-	L.Rule("R-C03-ADDFRESH", "every call of sampledLFU.add(key,cost) is reached only across the false edge of updateIfHas(key,..) for the same key, policy lock held throughout", 2)
-	L.Rule("R-C03-ROOM", "roomLeft/Cap formulas; oversize test first; evict.add only behind a fresh room>=0 test for the same cost; exactly one add per admitting return", 6)
-	L.Rule("R-C03-COSTPLUMB", "applier passes i.Cost loaded after the Config.Cost and internal-cost adjustments with the documented guards", 3)
-
-	writers := map[string]bool{"sampledLFU.add": true, "sampledLFU.del": true, "sampledLFU.updateIfHas": true, "sampledLFU.clear": true, "newSampledLFU": true}
-	c.Group("R-C03-WRITERS", "sampledLFU.used/keyCosts", func() {
-		n := 0
-		for _, fn := range P.SrcFuncs {
-			if fn.Pkg != P.Pkgs["ristretto"] {
-				continue
-			}
-			tb := newTB(fn)
-			writes := false
-			eachInstr(fn, func(in ssa.Instruction) {
-				switch x := in.(type) {
-				case *ssa.Store:
-					if fa, ok := x.Addr.(*ssa.FieldAddr); ok && recvName(fa.X.Type()) == "sampledLFU" {
-						f := fieldName(fa.X.Type(), fa.Field)
-						if f == "used" || f == "keyCosts" {
-							writes = true
-						}
-					}
-				case *ssa.MapUpdate:
-					if Match("fld[keyCosts](_)", tb.T(x.Map), nil) {
-						writes = true
-					}
-				case *ssa.Call:
-					if calleeName(&x.Call) == "delete" && Match("fld[keyCosts](_)", tb.T(x.Call.Args[0]), nil) {
-						writes = true
-					}
-				}
-			})
-			if writes {
-				n++
-				if !writers[fname(fn)] {
-					L.Fail("R-C03-WRITERS", "writer:"+fname(fn), "writes sampledLFU.used/keyCosts but has no effect summary: a new mutator of the accounted cost must be added to the table and given one", fn.Pos())
-				}
-			}
-		}
-		L.OkTrivial("R-C03-WRITERS", "sampledLFU.used/keyCosts", fmt.Sprintf("%d writer function(s), all in the table", n), 0)
-	})
-
-	// ---- R-C03-INV
 	for _, name := range []string{"add", "del", "updateIfHas", "clear"} {
 		name := name
-		c.Group("R-C03-INV", "sampledLFU."+name, func() {
+		c.Group(ruleID, "sampledLFU."+name, func() {
 			fn := P.Fn("ristretto", "sampledLFU", name)
 			L.Analysed(fname(fn))
 			tb := newTB(fn)
 			sums, err := summarize(fn, tb, []string{usedCell, keyCostsCell})
 			if err != nil {
-				L.Undecided("R-C03-INV", "sampledLFU."+name, err.Error(), fn.Pos())
+				L.Undecided(ruleID, "sampledLFU."+name, err.Error(), fn.Pos())
 				return
 			}
 			allOK := true
@@ -128,30 +85,79 @@ func runC03(c *Ctx) {
 					}
 				}
 				if undec != "" {
-					L.Undecided("R-C03-INV", "sampledLFU."+name, undec+" (path "+ps.BlockPath()+")", fn.Pos())
+					L.Undecided(ruleID, "sampledLFU."+name, undec+" (path "+ps.BlockPath()+")", fn.Pos())
 					allOK = false
 					continue
 				}
 				if reset {
 					if !ps.Mem[usedCell].equal(Lin{}) {
-						L.Fail("R-C03-INV", "sampledLFU."+name, "keyCosts is replaced by an empty map but used becomes "+ps.Mem[usedCell].String()+" instead of 0 (path "+ps.BlockPath()+")", fn.Pos())
+						L.Fail(ruleID, "sampledLFU."+name, "keyCosts is replaced by an empty map but used becomes "+ps.Mem[usedCell].String()+" instead of 0 (path "+ps.BlockPath()+")", fn.Pos())
 						allOK = false
 					}
 					descr = append(descr, "path "+ps.BlockPath()+": keyCosts:=fresh, used:=0")
 					continue
 				}
 				if !dUsed.equal(dMap) {
-					L.Fail("R-C03-INV", "sampledLFU."+name, fmt.Sprintf("on path %s: Δused = %s but Δsum(keyCosts) = %s", ps.BlockPath(), dUsed, dMap), fn.Pos())
+					L.Fail(ruleID, "sampledLFU."+name, fmt.Sprintf("on path %s: Δused = %s but Δsum(keyCosts) = %s", ps.BlockPath(), dUsed, dMap), fn.Pos())
 					allOK = false
 					continue
 				}
 				descr = append(descr, "path "+ps.BlockPath()+": Δused = Δsum(keyCosts) = "+dUsed.String())
 			}
 			if allOK {
-				L.Ok("R-C03-INV", "sampledLFU."+name, strings.Join(descr, "; "), fn.Pos())
+				L.Ok(ruleID, "sampledLFU."+name, strings.Join(descr, "; "), fn.Pos())
 			}
 		})
 	}
+}
+
+func runC03(c *Ctx) {
+	L, P := c.L, c.P
+	L.Rule("R-C03-WRITERS", "sampledLFU.used and sampledLFU.keyCosts are written only by add, del, updateIfHas, clear (+ constructor)", 1)
+	L.Rule("R-C03-INV", "each writer preserves used == sum(keyCosts) on every path (linear effect summary)", 4)
+	L.Rule("R-C03-ADDFRESH", "every call of sampledLFU.add(key,cost) is reached only across the false edge of updateIfHas(key,..) for the same key, policy lock held throughout", 2)
+	L.Rule("R-C03-ROOM", "roomLeft/Cap formulas; oversize test first; evict.add only behind a fresh room>=0 test for the same cost; exactly one add per admitting return", 6)
+	L.Rule("R-C03-COSTPLUMB", "applier passes i.Cost loaded after the Config.Cost and internal-cost adjustments with the documented guards", 3)
+
+	writers := map[string]bool{"sampledLFU.add": true, "sampledLFU.del": true, "sampledLFU.updateIfHas": true, "sampledLFU.clear": true, "newSampledLFU": true}
+	c.Group("R-C03-WRITERS", "sampledLFU.used/keyCosts", func() {
+		n := 0
+		for _, fn := range P.SrcFuncs {
+			if fn.Pkg != P.Pkgs["ristretto"] {
+				continue
+			}
+			tb := newTB(fn)
+			writes := false
+			eachInstr(fn, func(in ssa.Instruction) {
+				switch x := in.(type) {
+				case *ssa.Store:
+					if fa, ok := x.Addr.(*ssa.FieldAddr); ok && recvName(fa.X.Type()) == "sampledLFU" {
+						f := fieldName(fa.X.Type(), fa.Field)
+						if f == "used" || f == "keyCosts" {
+							writes = true
+						}
+					}
+				case *ssa.MapUpdate:
+					if Match("fld[keyCosts](_)", tb.T(x.Map), nil) {
+						writes = true
+					}
+				case *ssa.Call:
+					if calleeName(&x.Call) == "delete" && Match("fld[keyCosts](_)", tb.T(x.Call.Args[0]), nil) {
+						writes = true
+					}
+				}
+			})
+			if writes {
+				n++
+				if !writers[fname(fn)] {
+					L.Fail("R-C03-WRITERS", "writer:"+fname(fn), "writes sampledLFU.used/keyCosts but has no effect summary: a new mutator of the accounted cost must be added to the table and given one", fn.Pos())
+				}
+			}
+		}
+		L.OkTrivial("R-C03-WRITERS", "sampledLFU.used/keyCosts", fmt.Sprintf("%d writer function(s), all in the table", n), 0)
+	})
+
+	accountingInvRule(c, "R-C03-INV")
 
 	// ---- R-C03-ADDFRESH
 	c.Group("R-C03-ADDFRESH", "callers of sampledLFU.add", func() {
